@@ -48,7 +48,7 @@ func init() {
 			"snapshot masks scratch fields (stale tmp, runeBytes, mi) that fast paths legitimately leave different", "error text and position are not compared here (C09)"},
 		Bound: func(tier string) string {
 			if tier == "thorough" {
-				return "leg A: nesting D=3 (strict) / 1 (SEN), chunks of length 2..3; leg B: D=3 single, D=2 multi; leg C: 2-splits at every offset + 4096 straddle; leg D: SEN texts <=4 symbols"
+				return "leg A: chunks of length 2 from every state of nesting D<=3 (strict) / 1 (SEN), chunks of length 3 from the strict states of nesting <=1; leg B: D=3 single, D=2 multi; leg C: 2-splits at every offset + 4096 straddle; leg D: SEN texts <=4 symbols"
 			}
 			return "leg A: nesting D=2 (strict) / 0 (SEN), chunks of length 2; leg B: D=2 single, D=2 multi; leg C: 2-splits at every offset + 4096 straddle; leg D: SEN texts <=3 symbols"
 		},
@@ -211,8 +211,18 @@ func legA(c *core.Ctx) {
 	if sub == 0 {
 		c.Add("states", int64(len(e.States)))
 	}
-	alphabet := chunkAlphabet(m, c.Pick(2, 3))
-	c.Add("chunk_alphabet_"+m.Name, int64(len(alphabet))/int64(subA)/2+1)
+	alphabet := chunkAlphabet(m, 2)
+	// thorough: chunks of length 3 as well, from the states of nesting <= 1 (the
+	// chunk can open at most two more levels; deeper contexts repeat the top two)
+	var alphabet3 [][]byte
+	if !c.Quick() && m.Strict {
+		for _, ch := range chunkAlphabet(m, 3) {
+			if len(ch) == 3 {
+				alphabet3 = append(alphabet3, ch)
+			}
+		}
+	}
+	c.Add("chunk_alphabet_"+m.Name, int64(len(alphabet)+len(alphabet3))/int64(subA)/2+1)
 	sampled := false
 	for _, s := range e.States {
 		if s.ID%subA != sub {
@@ -223,7 +233,11 @@ func legA(c *core.Ctx) {
 		}
 		w := mach.Bytewise(s.Witness)
 		mode := bytemc.ModeOfKey(s.Key)
-		for _, ch := range alphabet {
+		chunks := alphabet
+		if len(alphabet3) > 0 && s.Ref != nil && s.Ref.Depth() <= 1 {
+			chunks = append(append([][]byte{}, alphabet...), alphabet3...)
+		}
+		for _, ch := range chunks {
 			a := append(append([][]byte{}, w...), ch)
 			full := append(append([]byte{}, s.Witness...), ch...)
 			b := mach.Bytewise(full)
